@@ -11,64 +11,27 @@ def src_of(case):
     return case.get("src", "")
 
 
-# C01-N26 (C08-N7): a loop whose body is a labelled block containing try/finally, the finally block containing both a
-# `continue` of the loop and a `break` to the label
-N26_RE = re.compile(r"\b(?:do|while|for)\b.*\b(\w+)\s*:\s*\{.*\bfinally\s*\{[^}]*\bcontinue\b[^}]*\bbreak\s+\1\b", re.S)
-N26_RE2 = re.compile(r"\b(?:do|while|for)\b.*\b(\w+)\s*:\s*\{.*\bfinally\s*\{[^}]*\bbreak\s+\1\b[^}]*\bcontinue\b", re.S)
+# C01-N31 (C02-N8): a store (=, op=, ++, --) to the own name of a named function expression inside its body
+N31_RE = re.compile(r"function\s*\*?\s*([A-Za-z_$][\w$]*)\s*\([^)]*\)\s*\{.*?(?:\b\1\s*(?:=(?!=)|\+\+|--|[-+*/%&|^]=|<<=|>>>?=|\*\*=|\?\?=|&&=|\|\|=)|(?:\+\+|--)\s*\1\b)", re.S)
 
 
-def pred_n26(case, record, expected_text):
+def pred_n31(case, record, expected_text):
     obs = record.get("obs", "")
     m = re.match(r"crash=(\d+)", obs)
     crash = int(m.group(1)) if m else 0
-    src = src_of(case)
-    return crash == 1 and "nil pointer dereference" in obs and bool(N26_RE.search(src) or N26_RE2.search(src))
+    # verifier rejection (crash bits 0), leaked operand seen by VerifIdle (16) or the type-confused instruction panicking (1)
+    return (crash & ~(16 | 1)) == 0 and bool(N31_RE.search(src_of(case)))
 
 
-# C01-N27: a private name as the key of an object literal
-N27_RE = re.compile(r"[{,]\s*#[A-Za-z_$][\w$]*\s*:")
+# C01-N32: an arrow function whose body contains yield
+N32_RE = re.compile(r"=>\s*(?:\{[^{}]*\byield\b|[(\s]*yield\b)")
 
 
-def pred_n27(case, record, expected_text):
+def pred_n32(case, record, expected_text):
     obs = record.get("obs", "")
     m = re.match(r"crash=(\d+)", obs)
     crash = int(m.group(1)) if m else 0
-    return crash == 8 and "Unknown expression type: *ast.PrivateIdentifier" in obs and bool(N27_RE.search(src_of(case)))
-
-
-# C01-N28: `#p in <operand> &&` / `||` without parentheses
-N28_RE = re.compile(r"#[A-Za-z_$][\w$]*\s+in\s+[^;(){},?:]*?(?:&&|\|\|)")
-
-
-def pred_n28(case, record, expected_text):
-    obs = record.get("obs", "")
-    m = re.match(r"crash=(\d+)", obs)
-    crash = int(m.group(1)) if m else 0
-    return crash == 8 and "Unknown expression type: *ast.PrivateIdentifier" in obs and bool(N28_RE.search(src_of(case)))
-
-
-# C01-N29: \\u{10FFFF} (leading zeros allowed) anywhere in the source (also inside an eval'd / Function string)
-N29_RE = re.compile(r"\\+u\{0*10FFFF\}", re.I)
-
-
-def pred_n29(case, record, expected_text):
-    obs = record.get("obs", "")
-    m = re.match(r"crash=(\d+)", obs)
-    crash = int(m.group(1)) if m else 0
-    return crash == 2 and "unexpected unicode length while parsing" in obs and bool(N29_RE.search(src_of(case)))
-
-
-# C01-N30: a user-defined [Symbol.iterator] / [Symbol.asyncIterator] method (whose result has no callable next)
-N30_RE = re.compile(r"\[Symbol\.(?:async)?[iI]terator\]")
-
-
-def pred_n30(case, record, expected_text):
-    obs = record.get("obs", "")
-    m = re.match(r"crash=(\d+)", obs)
-    crash = int(m.group(1)) if m else 0
-    src = src_of(case)
-    return (crash == 1 and "nil pointer dereference" in obs and bool(N30_RE.search(src))
-            and not (N26_RE.search(src) or N26_RE2.search(src)))
+    return crash == 1 and "nil pointer dereference" in obs and bool(N32_RE.search(src_of(case)))
 
 
 def candidates(case):
@@ -189,11 +152,8 @@ CFG = {
         "builtins, the parser and the lexer are covered only by the crash search, not by proof",
         "an instruction kind missing from the table makes the verifier skip the body (reported as coverage gap)",
     ],
-    "predicates": {"C01.continue_in_finally_of_labelled_block_inside_loop": pred_n26,
-                   "C01.private_identifier_as_object_literal_key": pred_n27,
-                   "C01.private_in_as_left_operand_of_logical_operator": pred_n28,
-                   "C01.escape_of_the_maximum_code_point": pred_n29,
-                   "C01.iterator_without_callable_next": pred_n30},
+    "predicates": {"C01.store_to_named_function_expression_own_name_discarded": pred_n31,
+                   "C01.yield_inside_arrow_function_in_generator": pred_n32},
     "manifest": {
         "text": ("translation validation, partial: a bytecode verifier (work-list abstract interpretation of operand-stack height, stack "
                  "locals, variadic markers and the try stack) is proved sound in Rocq against a small-step model of the VM's stack "
